@@ -451,6 +451,7 @@ func specMask64(m [4]byte) uint64 {
 
 //@ func Cipher
 //@   props C02 C15
+//@   locals n:int i:int mpos:int ln:int rn:int i:int i:int m:uint32 m2:uint64 j:int i:int chunk:[]byte p:uint64 p2:uint64
 //@   requires [off] 0 <= offset
 //@   ensures  [xor] forall(0, len(payload), func(k int) bool { return payload[k] == old(payload[k])^mask[VMaskIdx(offset, k)] })
 //@   assigns bytes(payload)
@@ -585,6 +586,7 @@ func dig(c byte) int { return int(c - '0') }
 
 //@ func pow
 //@   props C10 C15
+//@   locals p:int
 //@   requires [b] 0 <= b
 //@   ensures [p0] a == 10 && b == 0 ==> result == 1
 //@   ensures [p1] a == 10 && b == 1 ==> result == 10
@@ -600,6 +602,7 @@ func dig(c byte) int { return int(c - '0') }
 // for tokens of up to three digits (status codes, version numbers), longer ones may wrap.
 //@ func asciiToInt
 //@   props C10 C09 C15
+//@   locals n:int i:int
 //@   ensures [err]  (err == nil) == (len(bts) >= 1 && allDigits(bts))
 //@   ensures [zero] err != nil ==> ret == 0
 //@   ensures [v1]   err == nil && len(bts) == 1 ==> ret == dig(bts[0])
@@ -692,6 +695,7 @@ func isBlank(c byte) bool { return c == ' ' || c == '\t' }
 
 //@ func btrim
 //@   props C09 C10 C15
+//@   locals i:int j:int
 //@   ensures [sub]   sameBase(result, bts) || len(bts) == 0
 //@   ensures [range] 0 <= offOf(result)-offOf(bts) && offOf(result)-offOf(bts)+len(result) <= len(bts)
 //@   ensures [lead]  forall(0, offOf(result)-offOf(bts), func(k int) bool { return isBlank(bts[k]) })
@@ -722,6 +726,7 @@ func specCanon(prev byte, c byte) byte {
 
 //@ func canonicalizeHeaderKey
 //@   props C09 C15
+//@   locals upper:bool i:int c:byte
 //@   ensures [canon] forall(0, len(k), func(i int) bool { return k[i] == specCanon(iteByte(i == 0, '-', old(k[i-1])), old(k[i])) })
 //@   assigns bytes(k)
 //@   loop 1 invariant [r] -1 <= rangeIdx() && rangeIdx() < len(k)
@@ -906,6 +911,7 @@ func bwCalls(b *bufio.Writer) int                { return outCalls(wrOf(b)) }
 // The request line the dialer writes: GET, the URL's request-URI, HTTP/1.1 (C10).
 //@ func httpWriteUpgradeRequest
 //@   props C10
+//@   locals i:int p:string
 //@   requires [bw] bw != nil && u != nil
 //@   ensures  [get]  len(ufWritten(bw, old(bwCalls(bw)))) >= 4 && ufWritten(bw, old(bwCalls(bw)))[0] == 'G' && ufWritten(bw, old(bwCalls(bw)))[1] == 'E' && ufWritten(bw, old(bwCalls(bw)))[2] == 'T' && ufWritten(bw, old(bwCalls(bw)))[3] == ' '
 //@   ensures  [uri]  exists(0, 4, func(j int) bool { return eqvStr(ufWritten(bw, old(bwCalls(bw))+j), ufRequestURI(u)) })
@@ -938,6 +944,7 @@ func ufParamsContent(p httphead.Parameters) int { return 0 }
 // and a copy of the parameters in fresh memory, never the slices of the header being scanned.
 //@ func matchSelectedExtensions$1
 //@   props C17 C15 C10
+//@   locals want:httphead.Option
 //@   ensures [own]  ok ==> len(received) == old(len(received))+1 && fresh(ufParamsBuf(received[len(received)-1].Parameters))
 //@   ensures [params] ok ==> ufParamsContent(received[len(received)-1].Parameters) == ufParamsContent(old(option).Parameters)
 //@   ensures [keep] !ok ==> len(received) == old(len(received))
@@ -963,6 +970,7 @@ func ufParamsContent(p httphead.Parameters) int { return 0 }
 
 //@ func Dialer.Upgrade
 //@   props C10 C16 C17 C15
+//@   locals bw:*bufio.Writer nonce:[]byte err:error sl:[]byte resp:httpResponseLine onStatusError:func(statusint,reason[]byte,respio.Reader) headerSeen:byte line:[]byte e:error k:[]byte v:[]byte ok:bool want:string onHeader:func(key[]byte,value[]byte)(errerror) e:error
 //@   requires [conn] conn != nil && u != nil
 //@   ensures  [lineerr]  err == nil ==> forall(old(linePos(ufReaderOf(io.Reader(conn)))), linePos(ufReaderOf(io.Reader(conn))), func(i int) bool { return ufLineErr(ufReaderOf(io.Reader(conn)), i) == nil })
 //@   ensures  [handover] err == nil ==> (br == nil) == (ufBuffered(ufReaderOf(io.Reader(conn)), linePos(ufReaderOf(io.Reader(conn)))) == 0) && (br != nil ==> br == ufReaderOf(io.Reader(conn)))
@@ -1045,6 +1053,7 @@ func ufOptsOwned(opts []httphead.Option, n int) bool { return true }
 
 //@ func Upgrader.Upgrade
 //@   props C09 C16 C15 C17
+//@   locals br:*bufio.Reader bw:*bufio.Writer rl:[]byte req:httpRequestLine header:handshakeHeader onRequest:func(uri[]byte)error headerSeen:byte nonce:[]byte line:[]byte e:error k:[]byte v:[]byte ok:bool onHost:func(host[]byte)error custom:func([]byte)(string,bool) check:func([]byte)bool ok:bool f:func(httphead.Option)(httphead.Option,error) custom:func([]byte,[]httphead.Option)([]httphead.Option,bool) check:func(httphead.Option)bool ok:bool onHeader:func(key[]byte,value[]byte)error code:int rej:*ConnectionRejectedError ok:bool
 //@   callsite httpWriteResponseUpgrade requires [allseen] headerSeen == 31 && err == nil && len(nonce) == 24
 //@   callsite httpWriteResponseError requires [rejhdr] dynTypeIs(err, "*ws.ConnectionRejectedError") ==> header[1] == err.(*ConnectionRejectedError).header
 //@   callsite httpWriteResponseError requires [usrhdr] header[0] == u.Header
@@ -1104,6 +1113,7 @@ func ufHijacked(w http.ResponseWriter) *bufio.ReadWriter { return nil }
 
 //@ func HTTPUpgrader.Upgrade
 //@   props C09 C15
+//@   locals nonce:string u:string c:string v:string check:func(string)bool ps:[]string i:int ok:bool f:func(httphead.Option)(httphead.Option,error) h:string check:func(httphead.Option)bool xs:[]string i:int ok:bool t:time.Duration header:handshakeHeader h:http.Header code:int rej:*ConnectionRejectedError ok:bool
 //@   callsite httpWriteResponseError requires [rejhdr] dynTypeIs(err, "*ws.ConnectionRejectedError") ==> header[1] == err.(*ConnectionRejectedError).header
 //@   callsite httpWriteResponseError requires [usrhdr] header[0] == HandshakeHeader(HandshakeHeaderHTTP(u.Header)) || u.Header == nil
 //@   requires [r] r != nil && w != nil
